@@ -7,7 +7,7 @@ No pydra import.
 
 Program spec (JSON):
   {"inputs": {name: value},                      workflow inputs (lists of str, or str)
-   "nodes": [{"name": "n0", "kind": "T1"|"T2"|"L"|"Sub1"|"Sub2",
+   "nodes": [{"name": "n0", "kind": "T1"|"T2"|"T3"|"L"|"Sub1"|"Sub2",
               "in": {field: ["const", v] | ["wfin", name] | ["node", name]
                             | ["split", name]      (field is split over the workflow-input list)
                             | ["splitnode", name]  (field is split over the list each upstream job returned)},
@@ -28,7 +28,8 @@ class Undefined(Exception):
     """the statement does not fix the meaning of this program"""
 
 
-FIELDS = {"T1": ["a"], "T2": ["a", "b"], "L": ["a"], "Sub1": ["a"], "Sub2": ["a", "b"]}
+FIELDS = {"T1": ["a"], "T2": ["a", "b"], "T3": ["a", "b", "c"], "L": ["a"], "Sub1": ["a"],
+          "Sub2": ["a", "b"]}
 
 
 def fmt(v):
@@ -42,6 +43,8 @@ def apply_kind(kind, vals):
         return f"f({fmt(vals['a'])})"
     if kind == "T2":
         return f"g({fmt(vals['a'])},{fmt(vals['b'])})"
+    if kind == "T3":
+        return f"h({fmt(vals['a'])},{fmt(vals['b'])},{fmt(vals['c'])})"
     if kind == "L":
         return [f"{fmt(vals['a'])}.0", f"{fmt(vals['a'])}.1"]
     if kind == "Sub1":  # nested workflow: T1 -> T1
@@ -241,6 +244,9 @@ def labels(prog):
             out.add("same_upstream_twice")
         if own and o:
             out.add("own_split_below_split")
+        stateless_ups = [u for u in dict.fromkeys(ups) if not origin[u]]
+        if (own or o) and len(stateless_ups) >= 2:
+            out.add("stateful_node_with_two_stateless_inputs")
         if nd.get("combine"):
             out.add("combine")
             if any("." in c for c in nd["combine"]):
